@@ -14,7 +14,7 @@ import torch
 from torch.utils._python_dispatch import TorchDispatchMode, _disable_current_modes
 
 from . import terms as T
-from .engine import Engine, EngineMismatch, PathAbort, UnsupportedOp, as_obj, sort_of_dtype, FLOAT_DT
+from .engine import Engine, EngineMismatch, PathAbort, PyLevelGuard, UnsupportedOp, as_obj, sort_of_dtype, FLOAT_DT
 from .solve import Verdict, discharge, feasible
 
 
@@ -276,7 +276,7 @@ def run_path(harness, params, prefix, witness, seed, engine_opts=None, path_budg
         warnings.simplefilter("ignore")
         try:
             with timebox(path_budget_s, PathAbort(f"witness path exceeded the trace budget of {path_budget_s}s")):
-                with eng:
+                with PyLevelGuard(eng), eng:
                     harness(ctx)
         except PathAbort as e:
             res.status, res.reason = "abort", e.reason
